@@ -102,7 +102,8 @@ def run(chk):
     def batches():
         buf = []
         for n in range(0, maxlines + 1):
-            for combo in itertools.product(reps, repeat=n):
+            # (four lines only over the first thirty representative lines: 43^4 round trips would not fit the budget)
+            for combo in itertools.product(reps if n <= 3 else reps[:30], repeat=n):
                 buf.append(make_record(list(combo)))
                 if len(buf) >= 20000:
                     yield buf
